@@ -95,6 +95,11 @@ CHECKS["C19"] = dict(cat="fault_enumeration", engine="E4 xnet (real binary, rest
    text="For each connector kind {direct, http, socks5, quic, loadbalance[http,direct]} the upstream is stopped, killed with RST or restarted on the same port while idle, during the upstream handshake or mid-transfer; once it is reachable again a probe must succeed within 5 attempts of 4 s; tunnels and pending handshakes that were open across the outage must end; a long-lived control tunnel through a healthy upstream is checked during and after every outage; the proxy must stay alive.",
    note="Level 'fault_enumeration': kernel scheduling uncontrolled, deadlines one-sided. Silent packet loss with later recovery on the QUIC path is out of reach. Upstream kill = SIGKILL of the second hop / closing Python listeners.",
    ref="DESIGN.md §3 C19")
+CHECKS["C07"] = dict(cat=MC, engine="E2 xseq (verdict-cache histories on the real AuthData, real clock) + E4 real binary (SOCKS negotiation, TLS grids)",
+   technique="exhaustive enumeration of cache event histories (length<=4, thorough 5) vs a timestamped map reference; real-socket exhaustive grids: method-offer lists x credentials x auth configuration, TLS listener policy x presented certificate, TLS connector x insecure x upstream certificate",
+   text="Verdict cache: every history over {check(u1,p1), check(u1,p2), check(u2,p1), flip the backend verdict, wait 0.4 s, wait 1.3 s} on a fresh real AuthData with an external-command backend and cache.timeout 1 s: a cached verdict is used only for the identical pair while younger than the timeout, otherwise the backend is consulted exactly once with exactly that pair. Real sockets: 4 listener auth configurations x all method-offer lists of length 0-3 x 9 credential pairs + SOCKS4 ids (routed iff acceptable; method 0 never chosen when required); 27 TLS-listener cells and 18 TLS-connector cells with certificates from a test CA, a foreign CA and a wrong name.",
+   note="Real clock for the cache (ages within 150 ms of the timeout are discarded). The QUIC listener is reached through a front redproxy hop. Kernel scheduling uncontrolled in the E4 part.",
+   ref="DESIGN.md §3 C07")
 NOT_YET = "check not built yet in this revision (see DESIGN.md §3 for the planned model-checking design)"
 def main():
     checks = []
@@ -130,7 +135,7 @@ def main():
         "engines": [
             {"name": "E1 xsched", "path": "harness/src/verif/xsched.rs", "serves_properties": ["C01", "C04", "C06", "C14", "C15", "C16"], "kind_free_text": "stateless deviation-bounded DFS over task schedules and scripted environment answers of real async code"},
             {"name": "E3 loom", "path": "harness/src/verif/c17.rs", "serves_properties": ["C17"], "kind_free_text": "loom exhaustive interleavings of the real load balancer (feature loomlb => cfg(redproxy_verif_loom))"},
-            {"name": "E4 xnet", "path": "e4/", "serves_properties": ["C04", "C06", "C10", "C13", "C15", "C18", "C19"], "kind_free_text": "real-socket script/fault enumeration against the real binary (Python drivers, kernel scheduling uncontrolled)"},
+            {"name": "E4 xnet", "path": "e4/", "serves_properties": ["C04", "C06", "C07", "C10", "C13", "C15", "C18", "C19"], "kind_free_text": "real-socket script/fault enumeration against the real binary (Python drivers, kernel scheduling uncontrolled)"},
             {"name": "E2 xseq", "path": "harness/src/verif/", "serves_properties": [p for p in CHECKS], "kind_free_text": "bounded-exhaustive operation-sequence / input-shape enumeration on the real code vs reference model"},
         ],
         "checks": checks,
